@@ -143,6 +143,16 @@ def execute(w, st, ev):
         elif x == 1:
             rollback()
             s.__exit__(None, None, None)
+        elif x == 3:
+            # the database refuses the COMMIT: a deferred foreign key check fails on an orphan row written in this session
+            w.db.execute('PRAGMA defer_foreign_keys = ON')
+            w.db.execute('INSERT INTO tb (id, a_id) VALUES (9, 99)')
+            try:
+                s.__exit__(None, None, None)
+            except (core.DBException, core.OrmError):
+                pass
+            else:
+                raise MachineryError('the COMMIT that was meant to fail succeeded')
         else:
             try:
                 raise Boom()
